@@ -44,7 +44,17 @@ class Problem:
         self.variant = variant
         hx = np.array([2, 1, 1, 1, 1, 1, 1, 2.])*100
         hy = np.array([2, 1.5, 1, 1, 1, 1, 1.5, 2.])*100
-        self.grid = emg3d.TensorMesh([hx, hy, hx], (-450, -500, -450))
+        if variant.get("irregular"):
+            # widths that are no dyadic multiples of each other: volume
+            # fractions between this grid and an equal copy are then not
+            # exactly representable (1 +- ulp), unlike for the default widths
+            fx = np.array([1.93, 1.07, 0.97, 1.03, 1.0, 0.9, 1.1, 2.0])
+            fy = np.array([2.1, 1.37, 0.93, 1.0, 1.01, 1.09, 1.5, 2.0])
+            fz = np.array([1.7, 1.21, 1.1, 1.0, 1.0, 0.91, 1.33, 1.75])
+            hx, hy, hz = fx/fx.sum()*900, fy/fy.sum()*1000, fz/fz.sum()*900
+            self.grid = emg3d.TensorMesh([hx, hy, hz], (-450, -500, -450))
+        else:
+            self.grid = emg3d.TensorMesh([hx, hy, hx], (-450, -500, -450))
         if variant.get("four"):
             self.src = {'TxED-1': (-50, 0, 0, 0, 0),
                         'TxED-2': (50, 20, 10, 30, 10)}
